@@ -7,7 +7,7 @@ props = [json.loads(l)["id"] for l in open("/verif/properties.jsonl")]
 
 G_NOTE = ("Trusted base: gosym's go/ssa semantics (validated by native replay of every reported model and by the self-test), Z3 4.8.12, "
           "the harness reference code in harness/gen/ref.go.txt, the Go front end used to load the generated parser. "
-          "Bounded: token strings up to N, corpus grammars only; TypeScript output not covered (no tsmini).")
+          "Bounded: token strings up to N, corpus grammars only. The TypeScript output is executed by tsmini (own front end for the emitted subset, same term/solver layer, JS numbers modelled as 64-bit integers) and every TS finding is replayed under node 20 on the type-stripped file.")
 
 checks = {
  "C01": dict(cat="model_checking", ref="§5, §8 C01", technique="symbolic execution of the generated parser (go/ssa -> SMT, Z3) over N unconstrained token codes; derivation replay oracle",
@@ -34,7 +34,7 @@ checks = {
    note=G_NOTE + " Representation invariant assumed for U: one associativity per precedence level; cells with three or more candidates and reduce/reduce between two rules with precedence are outside the claim."),
  "C08": dict(cat="model_checking", ref="§8 C08", technique="symbolic execution of the four generated Go variants inside one harness on the same symbolic input; numbering-free outcome comparison",
    text="go, go -u, go -o and go -o -u parsers of one grammar, each generated through the real entry point, run on the same symbolic abstract input (terminal indices incl. end of input and a non-token; symbolic values); verdict, request count, reduction log and value term must coincide on every path.",
-   note=G_NOTE + " TypeScript is not compared (outside the bound)."),
+   note=G_NOTE + " Go vs TypeScript: both emitted parsers run on the same symbolic input inside one path (gosym + tsmini)."),
  "C11": dict(cat="model_checking", ref="§8 C11", technique="symbolic execution of the emitted translate()/TraceTranslate()/Action() for an unconstrained integer code",
    text="For every corpus grammar the emitted translate(c) is executed for an unconstrained int64 c: each declared code maps to its own symbol, -1 to the end marker, everything else to the error symbol, which is an error action in every state; the emitted token constants are pairwise distinct and differ from -1.",
    note=G_NOTE + " Covers the declaration mixes present in the corpus (explicit numbers, literals, automatic numbers, %left-only and rule-only tokens)."),
@@ -80,6 +80,7 @@ m = {
            "baseline_off_cmd": "cd /repo && GOFLAGS=-mod=mod GOPROXY=off go test -vet=off -count=1 ./...", "source_commits": [], "add_only": True},
  "engines": [
    {"name": "gosym", "path": "/verif/tool/gosym", "serves_properties": sorted(k for k in checks if k != "C03"), "kind_free_text": "own symbolic executor for go/ssa (x/tools v0.29.0): bit-vector terms, concrete heap, forking by re-execution, Z3 4.8.12 over a pipe"},
+   {"name": "tsmini", "path": "/verif/tool/tsmini", "serves_properties": ["C01", "C02", "C06", "C07", "C08", "C11"], "kind_free_text": "front end + symbolic evaluator for the TypeScript subset yaccgo emits, on gosym's term/solver layer; replay under node 20 after blanking type annotations"},
    {"name": "horn", "path": "/verif/tool/checks/horn.go", "serves_properties": ["C03"], "kind_free_text": "Z3 fixed-point (datalog) Horn specifications decided against artefacts dumped by the natively run generator"},
  ],
  "checks": [], "not_applicable": [], "notes": "see DESIGN.md; exit codes: 0 held within bound, 1 + VIOLATION line, 2 INCONCLUSIVE",
